@@ -9,11 +9,12 @@
 (* one run reports all deviations.  No expectation is computed outside the *)
 (* specification modules this module extends.                              *)
 (***************************************************************************)
-EXTENDS Bytes, Prim, HdwIO, Numbers, Rlp, Ecdsa, Tx, Bip39, HdPath, Bip32, SigText, Eip191, HexCodec, Eip712, Json, IOUtils, TLC, FiniteSets
+EXTENDS Bytes, Prim, HdwIO, Numbers, Rlp, Ecdsa, Tx, Bip39, HdPath, Bip32, SigText, Eip191, HexCodec, Eip712, Wallet, Json, IOUtils, TLC, FiniteSets
 
 Rec == ndJsonDeserialize(IOEnv.HDW_TRACE)
 
-VARIABLE l          \* index of the next event to consume
+VARIABLES l,        \* index of the next event to consume
+          store      \* session memory: [sid, outs] - stdout (hex) of the earlier steps of the current session, by item number
 
 Has(r, f)    == f \in DOMAIN r
 IsOk(o)      == Has(o, "ok")
@@ -233,6 +234,99 @@ JudgeMemberKind(e) ==
           THEN {D({"C08"}, "member_kind_print", IF IsOk(o) THEN o.ok.display ELSE "error")} ELSE {})]
 
 -----------------------------------------------------------------------------
+\* cli : in = [cmd, argv, env, files | stdin, rel?]   out = [status, signal, stdout, stderr_len, timeout]
+\* The recorded exit status / stdout must be the terminal state of Wallet!Run(cmd).
+CliCrashed(o)  == o.status = 101 \/ o.signal # 0 \/ o.timeout
+CliFailedOk(o) == ~CliCrashed(o) /\ o.status # 0 /\ o.stdout = "" /\ o.stderr_len > 0       \* an ordinary error
+CliCrashDevs(o) ==
+  IF o.timeout THEN {D({"C17"}, "cli_timeout", "")}
+  ELSE IF o.status = 101 THEN {D({"C17"}, "cli_panic", o.stderr_head)}
+  ELSE IF o.signal # 0 THEN {D({"C17"}, "cli_signal", ToString(o.signal))}
+  ELSE {}
+\* properties a wrong / missing result of this command violates
+CliResultProps(c) ==
+  IF c.sub = "hex" THEN {"C19"}
+  ELSE IF c.sub \in {"address", "export", "public-key"} THEN {"C16"}
+  ELSE {"C16"} \cup
+       (IF c.what = "transaction" THEN {"C06", "C11"} \cup (IF HasFlag(c, "signature_only") \/ c.sigtext # "" THEN {"C15"} ELSE {})
+        ELSE IF c.what = "message" THEN {"C10"}
+        ELSE IF c.what = "typeddata" THEN {"C08"}
+        ELSE IF c.what = "raw" THEN {"C05"}
+        ELSE {})
+\* properties violated by printing where the spec demands a refusal
+CliRefusalProps(why) ==
+  IF why = "missing_replay_protection" THEN {"C11"}
+  ELSE IF why \in {"selectors_combined", "mnemonic_required", "raw_digest"} THEN {"C16"}
+  ELSE IF why \in {"mnemonic_word_count", "mnemonic_unknown_word", "mnemonic_checksum"} THEN {"C01", "C16"}
+  ELSE IF why \in {"path_index_ge_2^31", "path_not_a_number", "path_missing_root"} THEN {"C14", "C16"}
+  ELSE IF why \in {"signature_length", "signature_non_hex", "signature_v", "signature_scalar_range"} THEN {"C15"}
+  ELSE IF why \in {"typeddata_domain_type", "typeddata_no_domain_type"} THEN {"C20"}
+  ELSE IF why = "hex_text" THEN {"C19"}
+  ELSE IF why \in {"typeddata_int_range", "typeddata_uint_range", "typeddata_uint_negative", "typeddata_bytesN_len",
+                   "typeddata_fixed_array_len", "typeddata_missing_member", "typeddata_extra_member",
+                   "typeddata_undefined_type", "typeddata_wrong_kind", "typeddata_malformed", "typeddata_fraction",
+                   "typeddata_bad_hex", "typeddata_bad_address", "typeddata_fraction_beyond_f64_precision",
+                   "typeddata_too_large"} THEN {"C09"}
+  ELSE {"C13"}           \* transaction_*
+
+\* relations between a session step and earlier steps (in.rel = <<kind, item...>>)
+StoreGet(i) == store.outs[i]
+OutText(hexs) == Hx(hexs)                  \* stdout bytes
+TrimNl(bs) == IF Len(bs) > 0 /\ bs[Len(bs)] = 10 THEN SubSeq(bs, 1, Len(bs) - 1) ELSE bs
+\* "0x..." text (codes) -> bytes; <<>> if malformed
+HexTextBytes(cs) == IF Len(cs) >= 2 /\ cs[1] = 48 /\ cs[2] = 120 /\ AllHex(SubSeq(cs, 3, Len(cs))) /\ Len(cs) % 2 = 0
+                    THEN HexPairs(SubSeq(cs, 3, Len(cs))) ELSE <<>>
+RelDevs(e) ==
+  IF ~Has(e.in, "rel") \/ e.in.rel = <<>> \/ e.out.status # 0 THEN {}
+  ELSE
+  LET r    == e.in.rel
+      mine == TrimNl(OutText(e.out.stdout))
+  IN
+  IF r[1] = "keccak_of_output" THEN
+    \* hash transaction --signature S  prints keccak of what  sign transaction  printed (item r[2])
+    (IF r[2] \in DOMAIN store.outs /\ HexTextBytes(mine) # Keccak256(HexTextBytes(TrimNl(OutText(StoreGet(r[2])))))
+     THEN {D({"C15"}, "hash_of_signed_transaction_differs", "")} ELSE {})
+  ELSE IF r[1] = "decodes_to_input_of" THEN
+    \* hex decode of the output of hex encode (item r[2]) gives back the bytes given in r[3]
+    (IF OutText(e.out.stdout) # Hx(r[3]) THEN {D({"C19"}, "encode_decode_not_inverse", "")} ELSE {})
+  ELSE IF r[1] = "signature_recovers" THEN
+    \* this step printed a signature; item r[2] printed the digest, item r[3] the address
+    (IF r[2] \in DOMAIN store.outs /\ r[3] \in DOMAIN store.outs THEN
+       LET sg == ParseSig(mine)
+           dg == HexTextBytes(TrimNl(OutText(StoreGet(r[2]))))
+           ad == TrimNl(OutText(StoreGet(r[3])))
+       IN  IF sg.c = "accept" /\ Len(dg) = 32
+              /\ Eip55(AddressOfPub(EcRecover(dg, sg.sig.r, sg.sig.s, sg.sig.par))) = ad THEN {}
+           ELSE {D({"C16"}, "sign_hash_address_disagree", "")}
+     ELSE {})
+  ELSE {}
+
+JudgeCli(e) ==
+  LET o == e.out
+      c == e.in.cmd
+      r == Run(c)
+      bound == e.in.argv = Argv(c)            \* the executed argv is the spec's rendering of the command
+      exact == r.pc = "printed" /\ ~r.either
+      printedRight == o.status = 0 /\ ~CliCrashed(o) /\ Hx(o.stdout) = r.out
+  IN  [cls |-> IF r.pc = "open" THEN "open" ELSE IF r.pc = "failed" THEN "reject" ELSE IF r.either THEN "either" ELSE "accept",
+       devs |->
+         CliCrashDevs(o) \cup RelDevs(e) \cup
+         (IF ~bound THEN {D({"C16"}, "argv_not_rendering_of_command", "")} ELSE {}) \cup
+         (IF r.pc = "open" THEN {}
+          ELSE IF r.pc = "failed" THEN
+            (IF CliFailedOk(o) THEN {}
+             ELSE IF CliCrashed(o) THEN {D(CliRefusalProps(r.why), "cli_crash_instead_of_refusal_" \o r.why, "")}
+             ELSE IF o.status = 0 THEN {D(CliRefusalProps(r.why), "cli_printed_instead_of_refusal_" \o r.why, o.stdout)}
+             ELSE IF o.stdout # "" THEN {D(CliRefusalProps(r.why), "cli_output_before_error", o.stdout)}
+             ELSE {D({"C17"}, "cli_error_without_message", "")})
+          ELSE \* printed
+            (IF printedRight THEN {}
+             ELSE IF r.either /\ CliFailedOk(o) THEN {}
+             ELSE IF CliCrashed(o) THEN {D(CliResultProps(c), "cli_crash_instead_of_result", "")}
+             ELSE IF o.status = 0 THEN {D(CliResultProps(c), "cli_wrong_output", o.stdout)}
+             ELSE {D(CliResultProps(c), "cli_refused_valid_command", o.stderr_head)}))]
+
+-----------------------------------------------------------------------------
 \* hook sweeps of the private RLP primitives: out.ok.hex must be the spec encoding
 Exact(e, expected, props, reason) ==
   LET o == e.out IN
@@ -296,7 +390,11 @@ JudgeMnRandom(e) ==
             \cup (IF p.c # "accept" THEN {D(props, "generated_phrase_not_valid", o.ok.phrase)}
                   ELSE (IF p.n # wl \/ o.ok.len # wl THEN {D(props, "generated_length_mismatch", ToString(p.n))} ELSE {})
                        \cup (IF o.ok.reparsed # o.ok.phrase THEN {D(props, "generated_not_parsed_back", "")} ELSE {})
-                       \cup (IF ~(\E k \in 1..Len(reqs) : reqs[k].rc = 0 /\ IsSlice(EntropyOfIdx(p.idx), Hx(reqs[k].hex)))
+                       \* every entropy byte comes from the source: the entropy is a contiguous slice of the
+                       \* bytes granted (in order) during this generation; requesting in several pieces or
+                       \* requesting surplus bytes is not constrained
+                       \cup (IF ~IsSlice(EntropyOfIdx(p.idx),
+                                         Concat([k \in 1..Len(reqs) |-> IF reqs[k].rc = 0 THEN Hx(reqs[k].hex) ELSE <<>>]))
                              THEN {D(props, "entropy_not_from_source", o.ok.phrase)} ELSE {})
                        \* with an injected feed the phrase is determined: entropy = the first bytes granted
                        \cup (IF Has(e.in, "feed") /\ wl \in ValidCounts
@@ -323,12 +421,19 @@ JudgeEvent(e) ==
          [] e.op = "typeddata"       -> JudgeTypedData(e)
          [] e.op = "eip712.encode_type" -> JudgeEncodeType(e)
          [] e.op = "eip712.member_kind" -> JudgeMemberKind(e)
+         [] e.op = "cli"             -> JudgeCli(e)
          [] e.op = "rlp.len"   -> JudgeRlpLen(e)
          [] e.op = "rlp.bytes" -> JudgeRlpBytes(e)
          [] e.op = "rlp.uint"  -> JudgeRlpUint(e)
          [] e.op = "rlp.list"  -> JudgeRlpList(e)
 
-Init == l = 1
+EmptyStore == [sid |-> "", outs |-> <<>>]
+Remember(e) ==
+  IF ~Has(e, "sid") THEN EmptyStore
+  ELSE LET sid == ToString(e.sid)
+           prev == IF store.sid = sid THEN store.outs ELSE <<>>
+       IN  [sid |-> sid, outs |-> IF Has(e.out, "stdout") THEN (e.i :> e.out.stdout) @@ prev ELSE prev]
+Init == l = 1 /\ store = EmptyStore
 Next ==
   /\ l <= Len(Rec)
   /\ LET e == Rec[l]
@@ -337,7 +442,8 @@ Next ==
          /\ \A d \in j.devs :
               Emit("dev", [i |-> e.i, op |-> e.op, props |-> d.props, reason |-> d.reason, detail |-> d.detail])
   /\ l' = l + 1
-Spec == Init /\ [][Next]_l
+  /\ store' = Remember(Rec[l])
+Spec == Init /\ [][Next]_<<l, store>>
 
 \* every line consumed: one state per event plus the initial state
 TraceAccepted ==
